@@ -19,7 +19,7 @@ A goroutine executes the DAGMutex methods as in the code:
   `mutex.Unlock()` on the object — also when it has just been removed from the maps (the repair of
   `unregisterMutex`); the object then lives on in the heap, detached.
 * `RUnlock(xs...)`: take `d.Mutex`, `unregisterMutex` for every id in order (a panic releases `d.Mutex`
-  through the `defer`), release, `mutex.RUnlock()` on the returned objects in order.
+  through the `defer` and leaves the ids before the offending one unregistered: `unregPrefix`), release, `mutex.RUnlock()` on the returned objects in order.
 
 `held`/`hobj` are ghosts: the entities a goroutine holds, from the return of the inner `Lock`/`RLock` to
 the unregistration at the beginning of `Unlock`/`RUnlock`, and the object through which it holds them.
@@ -41,7 +41,7 @@ inductive Kont
   | done
   | rl (rest : List (Nat × Nat))   -- RLock: (entity, object) pairs still to be read-locked
   | ru (rest : List Nat)           -- RUnlock: objects still to be read-unlocked
-  deriving DecidableEq, Repr
+  deriving DecidableEq, Repr, Hashable
 
 inductive Ctl
   | idle
@@ -51,7 +51,7 @@ inductive Ctl
   | runlockA (xs : List Nat) | runlockC (xs : List Nat)
   | inner (k : Kont)
   | dead
-  deriving DecidableEq, Repr
+  deriving DecidableEq, Repr, Hashable
 
 structure CTh where
   ctl : Ctl
@@ -107,6 +107,15 @@ def unregAll : CSh → List Nat → Option (CSh × List Nat)
       | none => none
       | some r2 => some (r2.1, r1.2 :: r2.2)
 
+/-- The registry when `unregisterMutexes(xs...)` panics: the ids before the offending one have already been
+unregistered (the code loops over `unregisterMutex` and has nothing to undo). -/
+def unregPrefix : CSh → List Nat → CSh
+  | s, [] => s
+  | s, x :: xs =>
+    match unregOne s x with
+    | none => s
+    | some r1 => unregPrefix r1.1 xs
+
 /-- enter the StarvingMutex method `op` of object `o` (for entity `x`) -/
 def startInner (t : CTh) (op : Op) (x o : Nat) (k : Kont) : CTh :=
   { t with ctl := .inner k, iop := op, curEnt := x, cur := o, ipc := start op }
@@ -151,7 +160,7 @@ def step (s : CSh) (t : CTh) : List (CSh × CTh) :=
     | some r => [({ r.1 with dm := false }, startInner { t with held := t.held.erase (x, .w) } .unlock x r.2 .done)]
   | .runlockC xs =>
     match unregAll s xs with
-    | none => [({ s with dm := false }, { t with ctl := .dead })]
+    | none => [({ unregPrefix s xs with dm := false }, { t with ctl := .dead })]
     | some r =>
       match r.2 with
       | [] => [({ r.1 with dm := false }, { t with ctl := .idle, held := eraseAll t.held .r xs })]
